@@ -511,8 +511,10 @@ bool Json::Private::parse(const char* data, Variant& result)
 
   if(!readToken())
     return false;
-  if(!parseValue(result))
+  Variant value; // result may hold a container (which would be merged into) or the text that is being parsed
+  if(!parseValue(value))
     return false;
+  result = value;
   return true;
 }
 
